@@ -16,7 +16,8 @@ class FNode:
     def __init__(self, tag, children):
         self.tag = tag
         self.children = children
-        self.fault = None      # (exception name, 'before' | 'after')
+        self.fault = None      # (exception name, 'before' | 'after'[, n]): with n, only the n-th invocation within one print fails
+        self.fired = 0
         self.badret = None     # object to return instead of a document
         self.calls = 0
 
@@ -40,14 +41,17 @@ def _doc(value, ctx, trailing_comment):
     value.calls += 1
     if value.badret is not None:
         return value.badret[0]
-    if value.fault and value.fault[1] == 'before':
+    active = value.fault is not None and (len(value.fault) < 3 or value.fault[2] is None or value.calls == value.fault[2])
+    if active:
+        value.fired += 1
+    if active and value.fault[1] == 'before':
         # (the message is hostile to str.format on purpose)
         raise EXC[value.fault[0]]('injected before {x} {0} {{y}} { %s')
     nested = ctx.nested_call()
     argdocs = [pretty_python_value(c, nested) for c in value.children]
     kwargdocs = [('tag', pretty_python_value(value.tag, nested))]
     doc = build_fncall(ctx, type(value), argdocs=argdocs, kwargdocs=kwargdocs, trailing_comment=trailing_comment)
-    if value.fault and value.fault[1] == 'after':
+    if active and value.fault[1] == 'after':
         raise EXC[value.fault[0]]("injected after {'k': {1, 2}} %d {")
     return doc
 
